@@ -351,6 +351,19 @@ def run_endpoints(ctx, clients):
                 store.op("revoke_token", token.access_token)
                 token.access_token_revoked_at = 1
 
+        chained = rng.random() < 0.35
+        if chained:
+            # RFC 9068 chain: an endpoint for JWT access tokens first (it permits more authentication methods and passes every other
+            # token on), then the endpoint above, which permits HTTP Basic only: the second authenticates for itself
+            from authlib.oauth2.rfc9068 import JWTRevocationEndpoint
+
+            class JRev(JWTRevocationEndpoint):
+                CLIENT_AUTH_METHODS = ["client_secret_basic", "client_secret_post", "none"]
+
+                def get_jwks(self):
+                    return {"keys": [{"kty": "oct", "k": "c2VjcmV0LWtleS1vbmUtMDAwMDAwMDAwMDAwMDAwMA", "kid": "k1"}]}
+
+            srv.register_endpoint(JRev(issuer="https://as.example"))
         srv.register_endpoint(Rev)
         store.tokens.append(S.Token("c1", "alice", token_type="Bearer", access_token="AT", refresh_token="RT", scope="a", expires_in=3600))
         before = store.snapshot()
@@ -373,8 +386,17 @@ def run_endpoints(ctx, clients):
         except Exception as e:  # noqa
             status, body, hdrs = None, None, []
             out = ["escapes", type(e).__name__]
-        case = {"endpoint": kind, "header": h, "form": fc}
-        ctx.case(case, ("ep", kind, h, str(fc), str(out)), "endpoint:%s:%s" % (kind, out[1] if out[0] != 200 else "200"))
+        case = {"endpoint": kind, "header": h, "form": fc, "chained": chained}
+        ctx.case(case, ("ep", kind, h, str(fc), str(out), chained), "endpoint:%s%s:%s" % (kind, ":chained" if chained else "", out[1] if out[0] != 200 else "200"))
+        if kind == "revocation" and out[0] == 200:
+            # answered as a revocation: the request must have authenticated with a method the answering endpoint permits
+            mreq = {"auth": h, "assertion_sig_ok": False, "assertion_wellformed": False, "assertion_claims": {}, "form_id": form.get("client_id"),
+                    "form_secret": form.get("client_secret"), "data_id": form.get("client_id"), "data_secret": form.get("client_secret")}
+            verdict = ctx.model.call("authenticate", {"token_url": TOKEN_URL, "now": NOW, "registry": REG, "request": mreq, "methods": Rev.CLIENT_AUTH_METHODS,
+                                                      "endpoint": "revocation", "used_jti": []})
+            if verdict[0] != "ok":
+                ctx.violation("C07:endpoint:revocation-without-authentication", "a revocation request was answered 200 although the client did not authenticate with a "
+                              "method the answering endpoint permits", case)
         if out[0] == "escapes":
             ctx.violation("C07:endpoint:escapes:%s" % out[1], "endpoint raised an unhandled exception on bad client credentials", case)
             continue
